@@ -20,6 +20,7 @@ def dispatch (cmd : String) (args : List String) : String :=
   | "VM" => vmCmd args
   | "LOW" => lowCmd args
   | "UID" => uidCmd args
+  | "STOP" => stopCmd args
   | "CMP" => cmp args
   | "AST" => ast args
   | "ORC" => (match args with
